@@ -12,7 +12,12 @@ Inductive case :=
 (* a server connection bound to one UDP address received, from the same or from another address, the hello
    carrying the cookie that had been issued to the bound address: got_cookie = the cookie was obtained;
    n / first / keyops = datagrams sent in answer, type of the first, private-key operations *)
-| ForeignCase (got_cookie same_addr : bool) (n : nat) (first : N) (keyops : nat).
+| ForeignCase (got_cookie same_addr : bool) (n : nat) (first : N) (keyops : nat)
+(* no secret is configured; a second server connection (same configuration object, same listener, same client address)
+   received the hello carrying the cookie that the FIRST connection had issued for exactly these fields: every
+   connection draws its own secret (C18_unconfigured_secret_is_drawn), so the answer is one fresh
+   HelloVerifyRequest with another cookie and no private-key operation *)
+| OtherConnCase (got_cookie : bool) (n : nat) (first : N) (keyops : nat) (same_cookie : bool).
 
 Definition HVR_T : N := 5635.   (* record type 22, handshake type 3 *)
 
@@ -48,6 +53,9 @@ Definition code (c : case) : N :=
       else if same then (if Nat.eqb n 0 || N.eqb first HVR_T then 3%N else 0%N)   (* the valid cookie from the right address is accepted *)
       else if negb (Nat.eqb n 0) || negb (Nat.eqb keyops 0) then 2%N               (* anything from another address is ignored *)
       else 0%N
+  | OtherConnCase got n first keyops same_cookie =>
+      if negb got then 3%N
+      else if Nat.eqb n 1 && N.eqb first HVR_T && Nat.eqb keyops 0 && negb same_cookie then 0%N else 16%N
   | LoopCase secret drawn addr hs rs =>
       (* an unconfigured (empty) secret is the 32 bytes the connection drew from Config.Rand,
          which the harness supplies and therefore knows *)
